@@ -39,3 +39,10 @@ CHECKS["C16"] = dict(
           "parse_version is asked for class, str() and <, <=, ==, > on seeded pairs and triples; the trace spec parses each text itself and checks the code's answers against "
           "its ordering and the order laws on the answers themselves."),
     note=_NOTE, ref="DESIGN.md section 6, C16")
+CHECKS["C01"] = dict(
+    technique="TLA+ spec (BVResolve gate/start-version, BVVersion, BVPep440) model-checked with TLC + trace validation of `bumpver test` / `update [--dry]` runs",
+    text=("Design level: the front half of test/update as a state machine (candidate from automatic increment or one of ten --set-version target classes, gate, dry/real) with the "
+          "invariants AnnouncedValidAndGreater, FailureTouchesNothing, DryWritesNothing, EqualSpellingRejected. Conformance: thousands of real `bumpver test` runs and "
+          "`bumpver update [--dry]` runs on scratch projects (commit off, tag lists served by a fake git, three tag scopes, --ignore-vcs-tag) are recorded as `gate` events; "
+          "the trace spec recomputes the start version from config value, tag list and scope, and evaluates the property on exit code, announced text and file changes."),
+    note=_NOTE, ref="DESIGN.md section 6, C01")
